@@ -15,7 +15,7 @@ from mcx.seams import owned_random
 
 SCALES = (0.5, 1.0, 2.0, 0.0)            # 0: every mapped atom collapses onto its anchor
 TARGETS = (('near', 0), ('between', 3), ('far', 2), ('onanchor', 0))        # size 0 = number of anchors + 1
-BASES = ('construct', 'genA', 'genB', 'colz', 'col111')
+BASES = ('construct', 'genA', 'genB', 'colz', 'col111', 'collapse')
 DKS = ('small', 'second', 'tiny')                           # second = axial on exactly collinear bases, else large;
                                                             # tiny = 1e-7 nm, applied right after the base conformation
 TINY = 1e-7
@@ -25,7 +25,7 @@ CONST_DRAW = np.array([0.31, 0.77, 0.52])
 MIN_SIN = 2e-3          # conformations: every anchor triple exactly collinear or sin >= MIN_SIN
 _CONF = {}
 _EDIT_COUNT = [0]
-CONF_CLASS = {'genA': 'generic', 'genB': 'generic', 'colz': 'col_z', 'col111': 'col_111'}   # construct: as built
+CONF_CLASS = {'genA': 'generic', 'genB': 'generic', 'colz': 'col_z', 'col111': 'col_111', 'collapse': 'neighbour-on-anchor'}   # construct: as built
 
 
 def _script(kind, a, k):
@@ -41,6 +41,11 @@ def base_conformation(base, geo, n, seed):
         return generic_points(n, seed, tag=300 + n), None
     if base == 'genB':
         return 1.7 * generic_points(n, seed, tag=400 + n) + np.array([3.0, -2.0, 1.0]), None
+    if base == 'collapse':
+        # generic, but the lowest-numbered bonded atom of the first anchor coincides with that anchor: the frame is
+        # degenerate (an arbitrary normal), distances to the anchor are still defined
+        pos = 1.3 * generic_points(n, seed, tag=500 + n) + np.array([-1.0, 2.0, 0.5])
+        return pos, 'collapse'
     if base == 'colz':
         return xm.collinear_points(n, (0, 0, 1), ks=xm.KS2, offset=np.array([-1.5, 0.25, 2.0]), step=0.125), \
             np.array([0.0, 0.0, 0.125])
@@ -110,6 +115,9 @@ class C03(Check):
             mod = {3: 1, 4: 3, 5: 16}[n]
             for geo in list(xm.NEAR) + list(xm.BENT):
                 u += [{'n': n, 'geo': geo, 'mod': mod, 'r': r} for r in range(mod)]
+        # a 9-atom chain 0..7 with a side bead 8 on atom 2: its bonded set {1, 3, 8} does not iterate in ascending order
+        # as a hash set; the frame still uses the two LOWEST (1 and 3), so displacing bead 8 changes nothing
+        u.append({'wrap9': True, 'n': 9})
         # two-atom references: the anchor of a mapped atom is the one the map REPORTS (equivalences)
         u.append({'ref2': True, 'n': 2})
         # topology edited between two maps: a map is built and used, a bond is then ADDED to the same topology
@@ -120,6 +128,13 @@ class C03(Check):
 
     def cases(self, unit, tier, seed):
         n = unit['n']
+        if unit.get('wrap9'):
+            for side in (2, 5):
+                edges = [[i, i + 1] for i in range(7)] + [[side, 8]]
+                for ti in (0, 1):
+                    for s in (0.5, 2.0):
+                        yield {'n': 9, 'edges': edges, 'geo': 'generic', 't': ti, 's': s, 'bases': ['construct', 'genA', 'genB']}
+            return
         if unit.get('ref2'):
             for bonded in (1, 0):
                 for s in (0.5, 1.0, 2.0):
@@ -144,6 +159,8 @@ class C03(Check):
             for ti in range(len(TARGETS)):
                 for s in scales:
                     yield {'n': n, 'edges': edges, 'geo': unit['geo'], 't': ti, 's': s}
+            if unit['geo'] in ('generic', 'col_z'):      # the same with reference and target split into two residues
+                yield {'n': n, 'edges': edges, 'geo': unit['geo'], 't': 1, 's': 0.5, 'tres': 2}
 
     # ------------------------------------------------------------------
     def check_case(self, case, R, seed):
@@ -230,9 +247,9 @@ class C03(Check):
                  for k in range(m) for l in range(k + 1, m) if assign[k] == assign[l]]
         frame_of = [{assign[k], *fn[assign[k]]} for k in range(m)]
         if ref is None:
-            ref = xm.ref_molecule(n, edges)
+            ref = xm.ref_molecule(n, edges, case.get('tres', 1))
         ref.atoms_positions = rpos.copy()
-        tgt = xm.tgt_molecule(m)
+        tgt = xm.tgt_molecule(m, case.get('tres', 1))
         tgt.atoms_positions = tpos.copy()
         cls0 = f'n{n}/{geo}/{place}' + ('/bond-added' if 'add' in case else '')
         try:
@@ -278,8 +295,18 @@ class C03(Check):
                     break
             return out
 
-        for base in ([case['base']] if 'base' in case else BASES):
+        for base in ([case['base']] if 'base' in case else case.get('bases', BASES)):
             bpos, axis = base_conformation(base, geo, n, seed)
+            if isinstance(axis, str):
+                # 'collapse': the lowest neighbour of an anchor is put ON the anchor ("middle point = first point" of
+                # its frame).  Only a neighbour that is no anchor itself is used: an anchor coinciding with its own
+                # SECOND frame neighbour has no first axis at all (outside C17's premise "first and third distinct")
+                cand = [a for a in sorted(fn) if fn[a][0] not in fn]
+                if not cand:
+                    continue
+                bpos = bpos.copy()
+                bpos[fn[cand[0]][0]] = bpos[cand[0]]
+                axis = None
             sig = f'built-{geo}/applied-{CONF_CLASS.get(base, geo)}'
             bdesc = dict(case, base=base)
             want_j = case.get('j', None)
@@ -305,7 +332,7 @@ class C03(Check):
             if want_j in (None, -1):
                 R.case(dict(bdesc, j=-1), nontrivial=base != 'construct', outcome='whole-conformation',
                        cls=f'{cls0}/{base}')
-            if want_j == -1 or geo in xm.NEAR or geo in xm.BENT:
+            if want_j == -1 or geo in xm.NEAR or geo in xm.BENT or base == 'collapse':
                 continue
             for j in ([want_j] if want_j is not None else range(n)):
                 for dk in ([case['dk']] if 'dk' in case else DKS):
